@@ -65,9 +65,10 @@ type InputVal struct {
 }
 
 type Witness struct {
-	Label  string     `json:"label"`
-	Inputs []InputVal `json:"inputs"`
-	Obs    []ObsVal   `json:"obs"`
+	Label  string            `json:"label"`
+	Inputs []InputVal        `json:"inputs"`
+	Obs    []ObsVal          `json:"obs"`
+	Extra  map[string]string `json:"extra,omitempty"`
 }
 
 type ObsVal struct {
@@ -158,6 +159,7 @@ type State struct {
 	crcApps   []*term.T
 	depth     int
 	decided   map[*term.T]bool
+	crashSt   *crashState
 }
 
 type obsRec struct {
@@ -623,6 +625,13 @@ func (ex *Exec) reportViolation(label, kind string, pos token.Pos, vals map[int]
 	}
 	ex.seenViol[key] = true
 	v := &Violation{Label: label, Kind: kind, Pos: p, Inputs: ex.inputVals(vals)}
+	if ex.st.crashSt != nil {
+		model := map[string]uint64{}
+		for _, in := range ex.st.inputs {
+			model[in.Name] = vals[in.ID]
+		}
+		v.Extra = ex.crashExtra(model)
+	}
 	for _, id := range ex.st.knownIDs {
 		// a listed known finding: only the labels it names (all, if it names none)
 		anyLabel := false
@@ -663,6 +672,7 @@ func (ex *Exec) Concretize(t *term.T, what string) uint64 {
 	}
 	ex.flush()
 	d := &dec{kind: dConc, cond: t, lvl: ex.Solver.Level()}
+	ex.StubsRun["concretize:"+what]++
 	r, vals := ex.Solver.CheckWith(nil, []*term.T{t})
 	if r != smt.Sat {
 		if r == smt.Unknown {
@@ -748,7 +758,15 @@ func (ex *Exec) Reach(label string) {
 	if ex.Reached[label] == 1 && ex.Cfg.WantWitness {
 		r, vals := ex.Solver.CheckWith(nil, ex.st.inputs)
 		if r == smt.Sat {
-			ex.Witnesses[label] = &Witness{Label: label, Inputs: ex.inputVals(vals)}
+			w := &Witness{Label: label, Inputs: ex.inputVals(vals)}
+			if ex.st.crashSt != nil {
+				model := map[string]uint64{}
+				for _, in := range ex.st.inputs {
+					model[in.Name] = vals[in.ID]
+				}
+				w.Extra = ex.crashExtra(model)
+			}
+			ex.Witnesses[label] = w
 		}
 	}
 }
